@@ -1491,30 +1491,39 @@ class AstEval:
     async def ast_delete(self, arg):
         """Execute del statement."""
         for arg1 in arg.targets:
-            if isinstance(arg1, ast.Subscript):
-                var = await self.aeval(arg1.value)
-                del var[await self.aeval(arg1.slice)]
-            elif isinstance(arg1, ast.Name):
-                if self.curr_func and arg1.id in self.curr_func.global_names:
-                    if arg1.id in self.global_sym_table:
-                        del self.global_sym_table[arg1.id]
-                elif arg1.id in self.sym_table:
-                    if isinstance(self.sym_table[arg1.id], EvalLocalVar):
-                        if self.sym_table[arg1.id].is_defined():
-                            self.sym_table[arg1.id].set_undefined()
-                        else:
-                            raise NameError(f"name '{arg1.id}' is not defined")
+            await self.recurse_delete(arg1)
+
+    async def recurse_delete(self, arg1):
+        """Delete a single target of a del statement."""
+        if isinstance(arg1, (ast.Tuple, ast.List)):
+            for elt in arg1.elts:
+                await self.recurse_delete(elt)
+        elif isinstance(arg1, ast.Subscript):
+            var = await self.aeval(arg1.value)
+            del var[await self.aeval(arg1.slice)]
+        elif isinstance(arg1, ast.Name):
+            if self.curr_func and arg1.id in self.curr_func.global_names:
+                if arg1.id in self.global_sym_table:
+                    del self.global_sym_table[arg1.id]
+            elif arg1.id in self.sym_table:
+                if isinstance(self.sym_table[arg1.id], EvalLocalVar):
+                    if self.sym_table[arg1.id].is_defined():
+                        self.sym_table[arg1.id].set_undefined()
                     else:
-                        del self.sym_table[arg1.id]
+                        raise NameError(f"name '{arg1.id}' is not defined")
                 else:
-                    raise NameError(f"name '{arg1.id}' is not defined")
-            elif isinstance(arg1, ast.Attribute):
-                var_name = await self.ast_attribute_collapse(arg1, check_undef=False)
-                if not isinstance(var_name, str):
-                    raise NameError("state name should be 'domain.entity' or 'domain.entity.attr'")
-                State.delete(var_name)
+                    del self.sym_table[arg1.id]
             else:
-                raise NotImplementedError(f"unknown target type {arg1} in del")
+                raise NameError(f"name '{arg1.id}' is not defined")
+        elif isinstance(arg1, ast.Attribute):
+            var_name = await self.ast_attribute_collapse(arg1)
+            if var_name is None:
+                # attribute of a regular python object
+                delattr(await self.aeval(arg1.value), arg1.attr)
+                return
+            State.delete(var_name)
+        else:
+            raise NotImplementedError(f"unknown target type {arg1} in del")
 
     async def ast_assert(self, arg):
         """Execute assert statement."""
